@@ -45,6 +45,13 @@ type c17Dest struct {
 // c17Check evaluates the relay rules for one source delivery.
 func c17Check(r *Run, comp string, d *Delivery, it *c17Item, dest *c17Dest, wantTopic string, wantMeta map[string]string, ackWhenCannotUnwrap bool) {
 	what := fmt.Sprintf("%s: source delivery %q#%d (item %d kind %d)", comp, d.Msg.UUID, d.Attempt, it.idx, it.kind)
+	if !d.Settled() && r.Params["stopped_early"] == 1 {
+		// the component was closed / its context cancelled while this message was on its way: it may stay unsettled, never acked
+		if len(dest.callsOf[d]) > 0 && dest.callsOf[d][len(dest.callsOf[d])-1].Err == nil {
+			r.Probe("accepted-but-unsettled-at-early-stop")
+		}
+		return
+	}
 	if !d.Settled() {
 		r.Fail("C17.R1", "a consumed message is unsettled at quiescence", "%s", what)
 		return
@@ -93,6 +100,16 @@ func c17Check(r *Run, comp string, d *Delivery, it *c17Item, dest *c17Dest, want
 			r.Fail("C17.R1", "the relayed message's metadata differs from the consumed one", "%s: %v, expected %v", what, m.Metadata, wantMeta)
 		}
 	}
+}
+
+// c17EarlyStop: in a third of the runs the component is stopped (Close or context cancel) at a random simulated
+// instant while messages are on their way; returns the delay or -1.
+func c17EarlyStop(r *Run, max time.Duration) time.Duration {
+	if !r.T.Chance(1, 3) {
+		return -1
+	}
+	r.Param("stopped_early", 1)
+	return time.Duration(r.T.Int(int(max/time.Millisecond)+1)) * time.Millisecond
 }
 
 func c17Faults(t *simrt.Tape, p *ScriptedPublisher) {
@@ -198,12 +215,20 @@ func c17Forwarder(r *Run) {
 			it := byEnvelope[d.Msg.UUID]
 			c17Check(r, "Forwarder", d, it, dest, it.destTopic, it.meta, ackBad)
 		}
-		if len(src.Deliveries) == 0 {
+		if len(src.Deliveries) == 0 && r.Params["stopped_early"] == 0 {
 			r.Fail("C17.R1", "nothing was consumed", "forwarder")
 		}
 	})
+	early := c17EarlyStop(r, 20*time.Millisecond)
 	go f.Run(context.Background())
 	<-f.Running()
+	if early >= 0 {
+		time.Sleep(early)
+		r.Fault("component-close-in-flight")
+		f.Close()
+		r.Sim.Quiesce()
+		return
+	}
 	r.Sim.Quiesce()
 	f.Close()
 }
@@ -265,8 +290,16 @@ func c17FanIn(r *Run) {
 			c17Check(r, "FanIn", d, it, dest, "target", want, false)
 		}
 	})
+	early := c17EarlyStop(r, 20*time.Millisecond)
 	go f.Run(context.Background())
 	<-f.Running()
+	if early >= 0 {
+		time.Sleep(early)
+		r.Fault("component-close-in-flight")
+		f.Close()
+		r.Sim.Quiesce()
+		return
+	}
 	r.Sim.Quiesce()
 	f.Close()
 }
@@ -339,7 +372,15 @@ func c17Requeuer(r *Run) {
 			c17Check(r, "Requeuer", d, it, dest, "requeue."+it.meta["target"], want, false)
 		}
 	})
+	early := c17EarlyStop(r, delay+20*time.Millisecond)
 	go rq.Run(ctx)
+	if early >= 0 {
+		time.Sleep(early)
+		r.Fault("context-cancel-in-flight")
+		cancel()
+		r.Sim.Quiesce()
+		return
+	}
 	r.Sim.Quiesce()
 	cancel()
 }
